@@ -25,7 +25,7 @@ func init() {
 			"unary operands and filter/attribute bases are atoms or parenthesised; conditional parts that are not atoms are parenthesised; 'is defined' is parenthesised as an operand (the table does not rank these)",
 			"the reference interpreter (internal/mt) is trusted to transcribe the statement",
 		},
-		quick: 120000, thorough: 600000, minQuick: 15000, minThorough: 100000,
+		quick: 120000, thorough: 1500000, minQuick: 15000, minThorough: 100000,
 	}})
 }
 
